@@ -74,6 +74,11 @@ class GeminiClientProtocol(asyncio.Protocol):
         Args:
             data: Raw bytes received from the server.
         """
+        if self.header_received and not (20 <= (self.status or 0) < 30):
+            # Header of a non-success response (or an invalid header) was
+            # already handled and the connection is being closed
+            return
+
         self.buffer += data
 
         # Check if we've received the complete header
@@ -92,6 +97,10 @@ class GeminiClientProtocol(asyncio.Protocol):
             # (no body expected for non-success responses)
             if not (20 <= self.status < 30):
                 self.transport.close()  # type: ignore
+                # Whatever follows the header is not a body: it must neither be
+                # kept nor counted against the body size limit
+                self.buffer = b""
+                return
 
         # Check if we've received too much data (prevent memory exhaustion)
         if len(self.buffer) > MAX_RESPONSE_BODY_SIZE:
@@ -306,6 +315,11 @@ class TitanClientProtocol(asyncio.Protocol):
         Args:
             data: Raw bytes received from the server.
         """
+        if self.header_received and not (20 <= (self.status or 0) < 30):
+            # Header of a non-success response (or an invalid header) was
+            # already handled and the connection is being closed
+            return
+
         self.buffer += data
 
         # Check if we've received the complete header
@@ -325,6 +339,10 @@ class TitanClientProtocol(asyncio.Protocol):
             if not (20 <= self.status < 30):
                 if self.transport:
                     self.transport.close()
+                # Whatever follows the header is not a body: it must neither be
+                # kept nor counted against the body size limit
+                self.buffer = b""
+                return
 
         # Check if we've received too much data
         if len(self.buffer) > MAX_RESPONSE_BODY_SIZE:
